@@ -8,6 +8,7 @@ def run(tier, seed):
     for t1 in (False, True):
         for t2 in (False, True):
             cases.append(Case('relation_%d%d' % (t1, t2), 'crypto', 'zzC17_relation', [t1, t2]))
+    cases.append(Case('cancelling_torsion', 'crypto', 'zzC17_cancelling_torsion', []))
     for w in range(7):
         cases.append(Case('honest_%d' % w, 'crypto', 'zzC17_honest', [w]))
     return run_check('C17', cases, tier, seed, setup=SETUP, timeout_ms=240000,
